@@ -89,6 +89,7 @@ func (c *lru) Flight(key, cmd string, ttl time.Duration, now time.Time) (v Redis
 	if e != nil && (v.typ == 0 || v.relativePTTL(now) > 0) {
 		hits := atomic.AddUint32(&kc.hits, 1)
 		if ele != back && hits&moveThreshold == 0 {
+			vhook("lru.flight.move", c, 0, 0)
 			c.mu.Lock()
 			if c.list != nil {
 				c.list.MoveToBack(ele)
@@ -101,6 +102,7 @@ func (c *lru) Flight(key, cmd string, ttl time.Duration, now time.Time) (v Redis
 	v = RedisMessage{}
 	e = nil
 
+	vhook("lru.flight.slow", c, 0, 0)
 	c.mu.Lock()
 	if kc, ok = c.store[key]; !ok {
 		if c.store == nil {
@@ -164,6 +166,7 @@ func (c *lru) Flights(now time.Time, multi []CacheableTTL, results []RedisResult
 	c.mu.RUnlock()
 
 	if len(moves) > 0 {
+		vhook("lru.flights.move", c, len(moves), 0)
 		c.mu.Lock()
 		if c.list != nil {
 			for _, ele := range moves {
@@ -178,6 +181,7 @@ func (c *lru) Flights(now time.Time, multi []CacheableTTL, results []RedisResult
 	}
 
 	j := 0
+	vhook("lru.flights.slow", c, len(missed), 0)
 	c.mu.Lock()
 	if c.store == nil {
 		c.mu.Unlock()
